@@ -656,6 +656,7 @@ def _small_shape(draw, min_side=1, max_size=8, max_ndim=2):
     return [a, b]
 
 
+W_FEW = ('none', 'none', 'none', 'const', 'array')
 REAL_DT = ['float64', 'float64', 'float32']
 CPLX_DT = ['complex128', 'complex128', 'complex64']
 
@@ -679,9 +680,12 @@ def tensor_sd(draw, field, wkinds=('none', 'const', 'array'), min_side=1,
 
 @st.composite
 def discr_sd(draw, field, min_side=1, max_size=8, max_ndim=2, bdry=None,
-             wkinds=('none',), shape=None):
-    """``bdry``: None = any, False = no boundary nodes, True = some."""
+             wkinds=('none',), shape=None, p_bdry=5):
+    """``bdry``: None = boundary nodes with probability ``p_bdry``/10,
+    False = no boundary nodes, True = some."""
     shape = shape or _small_shape(draw, min_side, max_size, max_ndim)
+    if bdry is None:
+        bdry = draw(st.integers(0, 9)) < p_bdry
     sd = draw(vs.discr_space_descs(
         shapes=st.just(list(shape)), dtypes=(_dtype(draw, field),),
         nodes_on_bdry=(bdry is not False), weighting_kinds=wkinds))
@@ -707,6 +711,7 @@ def leaf_sd(draw, field, kinds=('tensor', 'discr'), **kw):
     kind = draw(st.sampled_from(list(kinds)))
     if kind == 'tensor':
         kw.pop('bdry', None)
+        kw.pop('p_bdry', None)
         return draw(tensor_sd(field, **kw))
     kw.pop('wkinds', None)
     return draw(discr_sd(field, **kw))
@@ -911,7 +916,7 @@ def _matrix_desc(draw, shape, dtype):
 def fam_matrix(draw):
     field = draw(fields())
     mode = draw(st.sampled_from(['default', 'default', 'domain', 'domain',
-                                 'domran', 'domran', 'discr']))
+                                 'domain', 'domran', 'discr', 'discr']))
     mfield = field
     if draw(st.integers(0, 5)) == 0:
         mfield = 'real' if field == 'complex' else 'complex'
@@ -919,9 +924,9 @@ def fam_matrix(draw):
     sparse = draw(st.integers(0, 4)) == 0
     if mode != 'default':
         if mode == 'discr':
-            sd = draw(discr_sd(field, max_size=8))
+            sd = draw(discr_sd(field, max_size=8, p_bdry=2))
         else:
-            sd = draw(tensor_sd(field, max_size=8))
+            sd = draw(tensor_sd(field, max_size=8, wkinds=W_FEW))
         if np.dtype(sd['dtype']).itemsize in (4, 8) and \
                 np.dtype(sd['dtype']).name in ('float32', 'complex64'):
             mdt = 'float32' if mfield == 'real' else 'complex64'
@@ -978,7 +983,7 @@ def _sampling_pts(draw, shape):
 @st.composite
 def fam_sampling(draw):
     field = draw(fields())
-    sd = draw(leaf_sd(field, max_size=8))
+    sd = draw(leaf_sd(field, max_size=8, wkinds=W_FEW, p_bdry=2))
     e = draw(st.sampled_from(['sampling', 'sampling', 'wsumsampling',
                               'flatten', 'flatten', 'flatten_inv']))
     op = {'e': e, 'sp': 'X'}
@@ -1030,7 +1035,7 @@ def fam_projection(draw):
     for p in parts.values():
         p['dtype'] = dt
     keys = ['X0'] * n if power else ['X{}'.format(i) for i in range(n)]
-    w = draw(pweights(n))
+    w = draw(pweights(n, ('none', 'none', 'none', 'const', 'array')))
     T = ['pow', 'X0', n, w] if power else ['prod', keys, w]
     style = draw(st.sampled_from(['int', 'int', 'list', 'slice']))
     if style == 'int':
@@ -1056,7 +1061,7 @@ LAPL_PADS = ['constant', 'symmetric', 'periodic', 'order0']
 @st.composite
 def fam_diff(draw):
     field = draw(fields())
-    sd = draw(discr_sd(field, min_side=3, max_size=12))
+    sd = draw(discr_sd(field, min_side=3, max_size=12, p_bdry=2))
     nd = len(sd['shape'])
     e = draw(st.sampled_from(['partial', 'partial', 'gradient', 'divergence',
                               'laplacian']))
@@ -1097,7 +1102,7 @@ RESIZE_PADS = ['constant', 'symmetric', 'periodic', 'order0', 'order1']
 @st.composite
 def fam_resize(draw):
     field = draw(fields())
-    sd = draw(discr_sd(field, min_side=2, max_size=8))
+    sd = draw(discr_sd(field, min_side=2, max_size=8, p_bdry=2))
     shape = sd_shape(sd)
     pad = draw(st.sampled_from(RESIZE_PADS))
     ran_shp, offset = [], []
@@ -1154,6 +1159,11 @@ def fam_fourier(draw):
             op['shift'] = True
         if e.endswith('_inv'):
             op['sign'] = '+'
+        last = (list(range(nd)) if axes is None else axes)[-1]
+        if e == 'dft_inv' and sd['shape'][last] % 2 == 1:
+            # numpy back-end: irfftn without `s` cannot produce an odd
+            # length -> the *forward* call raises (a C18 matter)
+            op['impl'] = 'pyfftw'
         if e == 'dft' and draw(st.integers(0, 3)) == 0:
             # real -> full complex spectrum: the returned adjoint cannot be
             # evaluated (same root cause as C18's F19); the inverse variant
